@@ -89,3 +89,9 @@ func SigningPriv(kp refmodel.KeyPair) (types.SigningPrivateKey, error) {
 	}
 	return nil, fmt.Errorf("no private key object for type %d", kp.Type)
 }
+
+// newEdPriv returns the *Ed25519PrivateKey form NewRouterInfo / NewEncryptedLeaseSet expect.
+func newEdPriv(priv []byte) *ed25519.Ed25519PrivateKey {
+	k := ed25519.Ed25519PrivateKey(append([]byte(nil), priv...))
+	return &k
+}
